@@ -1,137 +1,21 @@
 #!/usr/bin/env python3
 """src2coq: regenerate the source-derived parts of the Coq model from /repo's working tree.
 
-Each generator reads anchored spots of the C++ source and writes one `Src<Area>.v` file under
-coq/theories (git-ignored: they are rebuilt on every run).  A missing anchor makes the generator
-fail loudly ("ANCHOR NOT FOUND"): the caller then reports the translator tie as broken.
+Each generator (tools/s2c/<area>.py, function generate() -> {file name: text}) reads anchored
+spots of the C++ source and produces `Src<Area>.v` files written to coq/theories (git-ignored:
+rebuilt on every run).  A missing anchor makes the generator raise AnchorError
+("ANCHOR NOT FOUND: ..."): the caller then reports the translator tie as broken.
 
-usage: src2coq.py [--repo /repo] [--out coq/theories] [area ...]
+usage: src2coq.py [--repo /repo] [--out coq/theories] [area ...]      (no area = all)
+prints one JSON object {area: {ok, files | error}}; exit 2 if any area failed.
 """
-import os, re, sys, json
+import glob, importlib, json, os, sys
 
-REPO = '/repo'
-OUT = os.path.join(os.path.dirname(os.path.abspath(__file__)), '..', 'coq', 'theories')
+HERE = os.path.dirname(os.path.abspath(__file__))
+sys.path.insert(0, HERE)
+from s2c import common
 
-
-class AnchorError(Exception):
-    pass
-
-
-def rd(p):
-    return open(os.path.join(REPO, 'src/qtlogger', p), encoding='utf-8').read()
-
-
-def need(m, what):
-    if not m:
-        raise AnchorError('ANCHOR NOT FOUND: ' + what)
-    return m
-
-
-def fn_body(src, qualname, what=None):
-    """body text of `... qualname(...) ... { body }` with balanced braces"""
-    m = need(re.search(r'\b%s\s*\(' % re.escape(qualname), src), what or qualname)
-    i = src.index('{', m.end())
-    # skip to the function's opening brace: first '{' after the closing ')' of the parameter list
-    depth = 0
-    j = m.end() - 1
-    while True:
-        c = src[j]
-        if c == '(':
-            depth += 1
-        elif c == ')':
-            depth -= 1
-            if depth == 0:
-                break
-        j += 1
-    i = src.index('{', j)
-    depth = 0
-    k = i
-    while True:
-        c = src[k]
-        if c == '{':
-            depth += 1
-        elif c == '}':
-            depth -= 1
-            if depth == 0:
-                return src[i + 1:k]
-        k += 1
-
-
-def strip_comments(s):
-    s = re.sub(r'/\*.*?\*/', '', s, flags=re.S)
-    return re.sub(r'//[^\n]*', '', s)
-
-
-HDR = '(* GENERATED by tools/src2coq.py from %s — do not edit; regenerated on every run *)\n'
-
-CLS = {'AttrHandler': 'Attr', 'Filter': 'Filt', 'Formatter': 'Fmt', 'Sink': 'Snk', 'Pipeline': 'Pipe',
-       'Handler': 'Gen'}
-
-
-# ------------------------------------------------------------------------------------------ sorted
-def gen_sorted():
-    s = strip_comments(rd('sortedpipeline.cpp'))
-
-    def shape_left(body):
-        b = re.sub(r'\s+', ' ', body)
-        need(re.search(r'firstRight = std::find_if\(handlers\(\)\.begin\(\), handlers\(\)\.end\(\),', b),
-             'insertBetweenNearLeft: forward search for firstRight')
-        need(re.search(r'rightType\.contains\(x->type\(\)\)', b), 'NearLeft rightType predicate')
-        need(re.search(r'leftType\.contains\(x->type\(\)\)', b), 'NearLeft leftType predicate')
-        if re.search(r'lastLeft = std::find_if\(firstRight, handlers\(\)\.begin\(\),', b) and \
-           re.search(r'handlers\(\)\.insert\(lastLeft, handler\)', b):
-            return 'SReversedRange'
-        if re.search(r'lastLeft = std::find_if\(std::make_reverse_iterator\(firstRight\), handlers\(\)\.rend\(\),', b) and \
-           re.search(r'handlers\(\)\.insert\(lastLeft\.base\(\), handler\)', b):
-            return 'SBackward'
-        raise AnchorError('ANCHOR NOT FOUND: insertBetweenNearLeft: unrecognised search shape')
-
-    def shape_right(body):
-        b = re.sub(r'\s+', ' ', body)
-        need(re.search(r'rightType\.contains\(x->type\(\)\)', b), 'NearRight rightType predicate')
-        need(re.search(r'leftType\.contains\(x->type\(\)\)', b), 'NearRight leftType predicate')
-        need(re.search(r'handlers\(\)\.insert\(firstRight, handler\)', b), 'NearRight insert(firstRight)')
-        if re.search(r'lastLeft = std::find_if\(handlers\(\)\.end\(\), handlers\(\)\.begin\(\),', b) and \
-           re.search(r'firstRight = std::find_if\(lastLeft, handlers\(\)\.end\(\),', b):
-            return 'SReversedRange'
-        if re.search(r'lastLeft = std::find_if\(handlers\(\)\.rbegin\(\), handlers\(\)\.rend\(\),', b) and \
-           re.search(r'firstRight = std::find_if\(lastLeft\.base\(\), handlers\(\)\.end\(\),', b):
-            return 'SBackward'
-        raise AnchorError('ANCHOR NOT FOUND: insertBetweenNearRight: unrecognised search shape')
-
-    nl = shape_left(fn_body(s, 'SortedPipeline::insertBetweenNearLeft'))
-    nr = shape_right(fn_body(s, 'SortedPipeline::insertBetweenNearRight'))
-
-    def sets(txt):
-        return '[' + '; '.join(CLS[x] for x in re.findall(r'HandlerType::(\w+)', txt)) + ']'
-
-    def place(fn, arg):
-        b = re.sub(r'\s+', ' ', fn_body(s, 'SortedPipeline::' + fn))
-        m = re.search(r'(insertBetweenNearLeft|insertBetweenNearRight)\(\s*\{([^{}]*)\}\s*,\s*\{([^{}]*)\}\s*,\s*%s\s*\)' % arg, b)
-        if m:
-            return ('PNearLeft' if m.group(1).endswith('Left') else 'PNearRight') + ' %s %s' % (sets(m.group(2)), sets(m.group(3)))
-        if re.search(r'\bappend\(%s\)' % arg, b):
-            return 'PAppend'
-        raise AnchorError('ANCHOR NOT FOUND: SortedPipeline::%s: unrecognised placement' % fn)
-
-    fb = re.sub(r'\s+', ' ', fn_body(s, 'SortedPipeline::setFormatter'))
-    clears = bool(re.search(r'clearFormatters\(\);.*insertBetween', fb))
-    cb = re.sub(r'\s+', ' ', fn_body(s, 'SortedPipeline::clear'))
-    need(re.search(r'if \(iter\.next\(\)->type\(\) == type\) \{ iter\.remove\(\); \}', cb), 'SortedPipeline::clear(type) loop')
-    out = HDR % 'src/qtlogger/sortedpipeline.cpp'
-    out += 'Require Import List.\nImport ListNotations.\nRequire Import QtlVerif.SortedDefs.\n'
-    out += 'Definition src_cfg : sorted_cfg := {|\n'
-    out += '  nl_shape := %s; nr_shape := %s;\n' % (nl, nr)
-    out += '  p_attr := %s;\n' % place('appendAttrHandler', 'attrHandler')
-    out += '  p_filter := %s;\n' % place('appendFilter', 'filter')
-    out += '  p_formatter := %s;\n' % place('setFormatter', 'formatter')
-    out += '  p_sink := %s;\n' % place('appendSink', 'sink')
-    out += '  p_pipeline := %s;\n' % place('appendPipeline', 'pipeline')
-    out += '  fmt_clears_first := %s |}.\n' % ('true' if clears else 'false')
-    return {'SrcSorted.v': out}
-
-
-GENERATORS = {'sorted': gen_sorted}
+OUT = os.path.join(HERE, '..', 'coq', 'theories')
 
 
 def write_if_changed(path, text):
@@ -146,25 +30,29 @@ def write_if_changed(path, text):
 
 
 def main(argv):
-    global REPO, OUT
+    global OUT
     args = list(argv)
     while args and args[0].startswith('--'):
         k = args.pop(0)
         if k == '--repo':
-            REPO = args.pop(0)
+            common.REPO = args.pop(0)
         elif k == '--out':
             OUT = args.pop(0)
-    areas = args or sorted(GENERATORS)
-    status = {}
-    rc = 0
+    all_areas = sorted(os.path.basename(p)[:-3] for p in glob.glob(os.path.join(HERE, 's2c', '*.py'))
+                       if os.path.basename(p) not in ('__init__.py', 'common.py'))
+    areas = args or all_areas
+    status, rc = {}, 0
     for a in areas:
         try:
-            files = GENERATORS[a]()
+            files = importlib.import_module('s2c.' + a).generate()
             for name, text in files.items():
                 write_if_changed(os.path.join(OUT, name), text)
             status[a] = {'ok': True, 'files': sorted(files)}
-        except AnchorError as e:
+        except common.AnchorError as e:
             status[a] = {'ok': False, 'error': str(e)}
+            rc = 2
+        except Exception as e:  # a crash of a generator is a broken tie as well
+            status[a] = {'ok': False, 'error': 'generator crashed: %r' % (e,)}
             rc = 2
     print(json.dumps(status))
     return rc
